@@ -4,6 +4,7 @@ import (
 	"encoding/json"
 	"fmt"
 	"math"
+	"os"
 	"sort"
 	"strings"
 	"time"
@@ -285,6 +286,7 @@ func c16Work(w *h.W) {
 		runProgCase(w, "special", pc, 1)
 	}
 	c16Chains(w)
+	c16FreshWork(w)
 }
 
 // chains: the input list of a call is itself the answer of an earlier built-in (so it may be held
@@ -372,7 +374,78 @@ func c16Chains(w *h.W) {
 	}
 }
 
+// fresh identity: atoms that a relation produces for the first time in the life of the process (names never
+// interned before) must be ONE atom per text: answers that are == also unify, with each other, across calls and
+// with the atom made through another route.
+type c16FreshCase struct {
+	Fresh bool   `json:"fresh_identity"`
+	Name  string `json:"name"`
+	Goal  string `json:"goal"`
+}
+
+var c16FreshGoals = []string{
+	"findall(S, sub_atom(A, _, _, _, S), L), \\+ (member(X, L), member(Y, L), X == Y, X \\= Y)",
+	"sub_atom(A, 0, H, _, S), H > 1, sub_atom(A, H, H, _, S2), S == S2, S = S2",
+	"sub_atom(A, 0, H, _, S), H > 1, S \\== A, atom_concat(S, R, A), S == R, S = R",
+	"findall(X-Y, atom_concat(X, Y, A), L), \\+ (member(X1-_, L), member(_-Y2, L), X1 == Y2, X1 \\= Y2)",
+	"atom_chars(A, Cs), append(Pre, Post, Cs), Pre = [_, _|_], atom_chars(P1, Pre), atom_chars(P2, Post), P1 == P2, P1 = P2",
+	"atom_length(A, N), H is N // 2, sub_atom(A, 0, H, _, S), atom_codes(S, Cs), atom_codes(S3, Cs), S = S3",
+	"sub_atom(A, B, 3, 0, S), sub_atom(A, 1, 3, _, S4), (S == S4 -> S = S4 ; true)",
+}
+
+var c16FreshSeq int
+
+func c16FreshRun(c *c16FreshCase) (exp, act string, ok bool) {
+	im := h.NewImpl()
+	var cs []string
+	for _, r := range c.Name {
+		cs = append(cs, fmt.Sprint(int(r)))
+	}
+	o := im.Query("atom_codes(A, ["+strings.Join(cs, ", ")+"]), "+c.Goal+".", nil, 2)
+	exp = "succeeds: equal texts are one atom"
+	if o.Status == "error" {
+		return exp, o.String(), false
+	}
+	if len(o.Answers) == 0 {
+		return exp, "fails: two atoms with the same text do not unify", false
+	}
+	return exp, "succeeds", true
+}
+
+func c16FreshWork(w *h.W) {
+	stems := []string{"ab", "xyz", "éa", "日本", "qrstu"}
+	for round := 0; round < w.Pick(2, 6); round++ {
+		for gi, g := range c16FreshGoals {
+			for _, st := range stems {
+				if !w.Mine() {
+					continue
+				}
+				c16FreshSeq++
+				// a name whose substrings no execution of this process has seen: a unique tag, doubled
+				half := fmt.Sprintf("%s%dv%dw%d", st, w.Shard, os.Getpid()%1000, c16FreshSeq)
+				c := &c16FreshCase{Fresh: true, Name: half + half, Goal: g}
+				w.Guard(c)
+				exp, act, ok := c16FreshRun(c)
+				w.Unguard()
+				w.Eval(1)
+				w.States(1)
+				w.Transitions(1)
+				w.Traces(1)
+				w.Nontrivial(fmt.Sprint("fresh:", gi, st, round))
+				w.Outcome("fresh-identity:" + fmt.Sprint(ok))
+				if !ok {
+					w.ViolationNoConfirm(fmt.Sprintf("fresh identity: goal %d: equal texts produced for the first time are not one atom", gi), c, exp, act)
+				}
+			}
+		}
+	}
+}
+
 func c16Replay(b []byte) (string, string, bool) {
+	var fc c16FreshCase
+	if json.Unmarshal(b, &fc) == nil && fc.Fresh {
+		return c16FreshRun(&fc)
+	}
 	var c c16Case
 	if json.Unmarshal(b, &c) == nil && c.Rel != "" {
 		return c16Run(h.NewImpl(), &c)
@@ -383,7 +456,7 @@ func c16Replay(b []byte) (string, string, bool) {
 func init() {
 	h.Register(&h.Check{
 		ID: "C16",
-		Rule: "for each of the 17 predicates: the COMPLETE finite relation over a domain is computed by brute force (atoms of <= 2/3 characters over {a,b,é,日} so that byte and character offsets differ; lists of <= 3/4 elements; 12 terms; integers near 0 and near +-2^63), then for every instantiation pattern the predicate's modes admit and every combination of bound values (all projections of the relation plus all one-position mutations, i.e. matching and non-matching calls) the call is run to exhaustion and its answers compared AS A MULTISET with the matching tuples; modes that create variables or enumerate infinitely (length/2, append/3, between/3 with inf, member/select on partial lists, functor/3 and =../2 construction) are compared with the reference machine on their first answers; chains: the input list is itself the answer of one of 12 built-in constructions (literal, append/3, findall/3, sort/2, =../2, atom_chars/2, atom_codes/2, copy_term/2, length/2, term_variables/2, nested, append in split mode) at every length 0..9 (10), and every ordered pair of 11 calls that extend/decompose that same list runs in one conjunction with both answers kept, compared with the reference machine. Non-trivial = at least one matching tuple; distinct = goal text.",
+		Rule: "for each of the 17 predicates: the COMPLETE finite relation over a domain is computed by brute force (atoms of <= 2/3 characters over {a,b,é,日} so that byte and character offsets differ; lists of <= 3/4 elements; 12 terms; integers near 0 and near +-2^63), then for every instantiation pattern the predicate's modes admit and every combination of bound values (all projections of the relation plus all one-position mutations, i.e. matching and non-matching calls) the call is run to exhaustion and its answers compared AS A MULTISET with the matching tuples; modes that create variables or enumerate infinitely (length/2, append/3, between/3 with inf, member/select on partial lists, functor/3 and =../2 construction) are compared with the reference machine on their first answers; chains: the input list is itself the answer of one of 12 built-in constructions (literal, append/3, findall/3, sort/2, =../2, atom_chars/2, atom_codes/2, copy_term/2, length/2, term_variables/2, nested, append in split mode) at every length 0..9 (10), and every ordered pair of 11 calls that extend/decompose that same list runs in one conjunction with both answers kept, compared with the reference machine; fresh identity: atoms whose substrings no execution of the process has interned before (unique doubled names, ASCII and multi-byte) through 7 goals over sub_atom/5, atom_concat/3, atom_chars/2, atom_codes/2: answers with equal text are one atom (== implies unifiable), within a call, across calls and across routes. Non-trivial = at least one matching tuple; distinct = goal text.",
 		Explanation: "state = one call pattern with bound values; transition = the call run to exhaustion on the real interpreter; oracle = the brute-force relation filtered by the bound arguments (each tuple exactly once, nothing else) - which also gives the monotonicity clause, since a more instantiated call is compared with the matching subset of the same relation",
 		Assumptions: []string{"ref/relations: brute-force definitions (all splits, all (B,L,A) triples, all index/element pairs ...) with text measured in runes", "member/2 and select/3 answer once per occurrence (position) of the element", "errors for calls outside the modes belong to C05"},
 		Work:        c16Work,
